@@ -26,4 +26,19 @@ PROPS = {
                 'a state is non-trivial when some list is non-empty',
         'assumptions': ASSUME_E1,
     },
+    'C01': {
+        'level': 'model_checking',
+        'jobs': [{'world': 'tree', 'src': 'worlds/tree_world.c', 'lib': ['bintree.c', 'rbtree.c'], 'flavours': RELDBG_ALWAYS}],
+        'rule': 'breadth-first search to closure over insert / hinted insert (parent from find) / erase by probe key / erase by member / clear / swap on cstl_bintree and cstl_rbtree, '
+                'pools with distinct, paired, all-equal and one-heavy key multisets, three comparators; every state audited with find for every key, forward and reverse traversal '
+                'and an early stop at every visit index; a state is non-trivial when it holds at least 3 elements',
+        'assumptions': ASSUME_E1,
+    },
+    'C02': {
+        'level': 'model_checking',
+        'jobs': [{'world': 'tree', 'src': 'worlds/tree_world.c', 'lib': ['bintree.c', 'rbtree.c'], 'flavours': RELDBG_ALWAYS}],
+        'rule': 'same closure search as C01 (cstl_rbtree configurations carry the oracle): in every reachable state root black, no red-red, equal black height, '
+                'parent links, cstl_rbtree_height max <= 2*log2(n+1); non-trivial = at least 3 elements held',
+        'assumptions': ASSUME_E1,
+    },
 }
